@@ -33,6 +33,7 @@ PROPS = {
  'C12': dict(scope=None, bridge=['sigs_same_names'], theorems=[]),
  'C13': dict(scope=None, bridge=sigs(['select', 'move', 'swapdb', 'flushall', 'flushdb', 'dbsize', 'echo', 'ping', 'time', 'save',
                                       'bgsave', 'lastsave']) + ['const_DbIndex_eq'], theorems=[]),
+ 'C19': dict(scope=None, bridge=sigs(['eval', 'evalsha', 'script']) + ['msg_NO_MATCHING_SCRIPT_MSG_eq', 'msg_COMMAND_IN_SCRIPT_MSG_eq', 'msg_TOO_MANY_KEYS_MSG_eq', 'msg_NEGATIVE_KEYS_MSG_eq', 'msg_SCRIPT_ERROR_MSG_eq', 'msg_LUA_COMMAND_ARG_MSG_eq', 'msg_LUA_COMMAND_ARG_MSG6_eq', 'msg_GLOBAL_VARIABLE_MSG_eq', 'msg_LUA_WRONG_NUMBER_ARGS_MSG_eq'], theorems=[]),
  'C20': dict(scope=None, bridge=['msg_CONNECTION_ERROR_MSG_eq', 'sigs_same_names'], theorems=[]),
  'C14': dict(scope=None, bridge=sigs(['blpop', 'brpop', 'brpoplpush']) + ['sigs_eq'], theorems=[]),
  'C15': dict(scope=set(F['scan']), bridge=sigs(F['scan']) + ['scanDefaultCount_eq', 'msg_INVALID_CURSOR_MSG_eq',
